@@ -84,6 +84,10 @@ Definition set_phase (s : rspec) (ph : Z) : rspec :=
          (s_alloc s) (s_reserved s) (s_ownbad s) (s_kind s).
 
 (* IsReservationAvailable; for an operating pod: Running and Ready (phase 1), node not looked at *)
+Definition set_node (s : rspec) (n : Z) : rspec :=
+  mkSpec (s_uid s) n (s_phase s) (s_term s) (s_once s) (s_policy s) (s_opts s) (s_optres s)
+         (s_alloc s) (s_reserved s) (s_ownbad s) (s_kind s).
+
 Definition is_available (s : rspec) : bool :=
   ((s_kind s =? 1) || negb (s_node s =? 0)) && (s_phase s =? 1).
 Definition is_active (s : rspec) : bool :=
@@ -359,7 +363,11 @@ Inductive hop :=
 | HPodForget (ru pu : Z)                 (* cache.forgetPods / deletePod *)
 | HPodAdd (p : pev)                      (* podEventHandler.OnAdd *)
 | HPodUpdate (o p : pev)                 (* podEventHandler.OnUpdate *)
-| HPodDelete (p : pev).                  (* podEventHandler.OnDelete *)
+| HPodDelete (p : pev)                   (* podEventHandler.OnDelete *)
+| HReserveRsv (s : rspec) (n : Z)        (* Plugin.Reserve(reserve pod of s, node n): s is the
+                                            lister's object, the node comes from the call *)
+| HUnreserveRsv (s : rspec) (n : Z).     (* Plugin.Unreserve(reserve pod of s, node n); also when
+                                            the lister no longer has s (uid from the pod) *)
 
 Definition as_preq (p : pev) : preq := (e_uid p, e_req p).
 
@@ -402,6 +410,8 @@ Definition lower (h : hop) : list cop :=
   | HPodAdd p => lower_pod_update None p
   | HPodUpdate o p => lower_pod_update (Some o) p
   | HPodDelete p => lower_pod_delete p
+  | HReserveRsv s n => [CUpdate false 0 (set_node s n)]
+  | HUnreserveRsv s n => [CDelete (s_uid s) n]
   end.
 
 Definition hstep (c : cache) (h : hop) : cache := crun c (lower h).
